@@ -53,7 +53,7 @@ func discoverGuards(p *Program, name string, mode string, track []string) error 
 	}
 	for _, r := range f.rets {
 		k := [...]string{"accept", "fail", "forward", "maybe"}[r.kind]
-		fmt.Printf("  # return %s %s at %s\n", k, r.code, p.pos(f.retPos(r)))
+		fmt.Printf("  # return %s %s at %s\n", k, f.retCode(r), p.pos(f.retPos(r)))
 	}
 	return nil
 }
